@@ -195,6 +195,7 @@ def run(tier):
     # (iii'') the bulk operations: one round of the override's loop and of the provided body's loop, tabulated over the unit at the cursor
     from . import bulkops
     rep.floor("bulk operations compared", bulkops.check(rep, F), 3)
+    rep.floor("bulk operations whose returned count is classified", bulkops.count_unit(rep, F), 2)
     # (iii') multi-character tests (document markers, "can a plain scalar go on here"): override vs provided body on every text of up to
     # four characters over the characters either body distinguishes (plus a letter and a two-byte character), by constant folding
     LETTERS = [0x2D, 0x2E, 0x20, 0x09, 0x0A, 0x0D, 0x3A, 0x2C, 0x5B, 0x7D, 0x61, 0xE9]
